@@ -2,6 +2,8 @@
 # Runs every seeded change against the checks of the properties it breaks; writes seeded/RESULTS.md.
 # Works on a scratch copy of /repo (outside /repo and /verif, removed afterwards) with a private copy of the
 # gocv binary and the current contracts/specs/baseline; neither /repo nor the evidence files are touched.
+# (No second solver attempt here: the matrix only records whether the quick check raises an alarm; on /repo
+# itself an undecided baseline obligation gets a second, longer attempt before it is reported.)
 export GOFLAGS=-mod=mod GOPROXY=off GOSUMDB=off GOTOOLCHAIN=local
 cd /verif
 scratch=$(mktemp -d /tmp/verif-matrix-XXXXXX)
@@ -19,7 +21,7 @@ for d in seeded/m*/; do
   rm -rf "$scratch/repo"; cp -r "$scratch/base" "$scratch/repo"
   if ! (cd "$scratch/repo" && git apply "/verif/$d/patch.diff" 2>/dev/null); then echo "| $id | $props | - | patch no longer applies | |" >> $tmp; continue; fi
   for p in $props; do
-    log=$(GOCV_SELFTEST_DIR="$scratch" "$scratch/gocv" check -prop $p -tier quick -repo "$scratch/repo" -verif "$scratch/verif" 2>&1)
+    log=$(GOCV_NO_SECOND_ATTEMPT=1 GOCV_SELFTEST_DIR="$scratch" "$scratch/gocv" check -prop $p -tier quick -repo "$scratch/repo" -verif "$scratch/verif" 2>&1)
     if echo "$log" | grep -q "^VIOLATION"; then res="caught"; else res="MISSED"; fi
     obls=$(echo "$log" | grep "^VIOLATION" | sed 's/.*replays\/[A-Z0-9]*\///; s/\.json.*//' | head -3 | tr '\n' ';')
     echo "| $id | $props | $p | $res | $obls |" >> $tmp
